@@ -1,5 +1,6 @@
 import Gaftools.Spec.Align
 import Gaftools.Props.C16
+import Gaftools.Proofs.CigarLemmas
 /-!
 # C12 — realign emits a valid global alignment of read slice to path slice  (PARTIAL: conditional on the aligner)
 
@@ -7,33 +8,68 @@ WFA2-lib / pywfa is foreign code.  Its contract is the explicit hypothesis `Alig
 correspondence case by the proved checker `cigarValid` and by `cost` evaluated on the CIGAR the real tool wrote.
 -/
 namespace Gaftools.C12
-open Gaftools.Gaf Gaftools.Cigar Gaftools.Spec.Align
+open Gaftools.Gaf Gaftools.Cigar Gaftools.Spec.Align Gaftools.Proofs.Cigar
 
 def wfOps (ops : List Op) : Prop := ∀ o ∈ ops, o.1 > 0 ∧ (o.2 = '=' ∨ o.2 = 'X' ∨ o.2 = 'I' ∨ o.2 = 'D')
 
 /-- the executable checker decides the inductive definition of a global alignment -/
 theorem cigarValid_iff (ref q : List Char) (ops : List Op) : cigarValid ref q ops = true ↔ Aligns ref q ops := by
-  sorry
+  exact ⟨aligns_of_cigarValid ops ref q, cigarValid_of_aligns⟩
 
 /-- a valid alignment consumes both strings exactly -/
 theorem aligns_lengths (ref q : List Char) (ops : List Op) (h : Aligns ref q ops) :
     ref.length = ((ops.filter (fun o => o.2 == '=' || o.2 == 'X' || o.2 == 'D')).map (·.1)).sum ∧
     q.length = ((ops.filter (fun o => o.2 == '=' || o.2 == 'X' || o.2 == 'I')).map (·.1)).sum := by
-  sorry
+  induction h with
+  | nil => simp
+  | eq s h hs ih => obtain ⟨ih1, ih2⟩ := ih; simp [ih1, ih2]
+  | mis a b h hl ha hd ih => obtain ⟨ih1, ih2⟩ := ih; simp [ih1, ih2, hl]
+  | ins b h hb ih =>
+    obtain ⟨ih1, ih2⟩ := ih
+    refine ⟨?_, ?_⟩
+    · simpa using ih1
+    · simp [ih2]
+  | del a h ha ih =>
+    obtain ⟨ih1, ih2⟩ := ih
+    refine ⟨?_, ?_⟩
+    · simp [ih1]
+    · simpa using ih2
 
 theorem aligns_wfOps (ref q : List Char) (ops : List Op) (h : Aligns ref q ops) : wfOps ops := by
-  sorry
+  induction h with
+  | nil => intro o ho; simp at ho
+  | eq s h hs ih =>
+    intro o ho
+    rcases List.mem_cons.1 ho with rfl | ho
+    · exact ⟨List.length_pos_iff.2 hs, Or.inl rfl⟩
+    · exact ih o ho
+  | mis a b h hl ha hd ih =>
+    intro o ho
+    rcases List.mem_cons.1 ho with rfl | ho
+    · exact ⟨List.length_pos_iff.2 ha, Or.inr (Or.inl rfl)⟩
+    · exact ih o ho
+  | ins b h hb ih =>
+    intro o ho
+    rcases List.mem_cons.1 ho with rfl | ho
+    · exact ⟨List.length_pos_iff.2 hb, Or.inr (Or.inr (Or.inl rfl))⟩
+    · exact ih o ho
+  | del a h ha ih =>
+    intro o ho
+    rcases List.mem_cons.1 ho with rfl | ho
+    · exact ⟨List.length_pos_iff.2 ha, Or.inr (Or.inr (Or.inr rfl))⟩
+    · exact ih o ho
 
 /-- the printed CIGAR reads back as the very operations the tallies were taken from -/
 theorem parse_render (ops : List Op) (h : wfOps ops) : parseCigar (render ops) = some ops := by
-  sorry
+  refine parseGo_render ops (fun o ho => ?_) _ (Nat.le_refl _)
+  rcases (h o ho).2 with h | h | h | h <;> rw [h] <;> exact ⟨by decide, by decide⟩
 
 /-- match count and block length of the emitted record agree with its CIGAR; `M` is never emitted -/
 theorem tally_agrees (r : Rec) (ops : List Op) (h : wfOps ops) :
     let ro := emitRealigned r ops
     parseCigar ro.cigar = some ops ∧ ro.nmatch = nMatch ops ∧ ro.blen = blockLen ops ∧
     dictGet ro.tags cgKey = some ro.cigar ∧ ro.cigar.all (· != 'M') = true := by
-  sorry
+  refine ⟨parse_render ops h, rfl, rfl, dictGet_dictSet _ _ _, render_ne_M ops (fun o ho => (h o ho).2)⟩
 
 /-- all other columns and optional fields are unchanged (tags other than cg:Z: keep their values and order) -/
 theorem untouched (r : Rec) (ops : List Op) :
@@ -41,12 +77,12 @@ theorem untouched (r : Rec) (ops : List Op) :
     ro.qname = r.qname ∧ ro.qlen = r.qlen ∧ ro.qs = r.qs ∧ ro.qe = r.qe ∧ ro.strand = r.strand ∧ ro.path = r.path ∧
     ro.plen = r.plen ∧ ro.ps = r.ps ∧ ro.pe = r.pe ∧ ro.mapq = r.mapq ∧
     ro.tags.filter (fun kv => kv.1 != cgKey) = r.tags.filter (fun kv => kv.1 != cgKey) := by
-  sorry
+  exact ⟨rfl, rfl, rfl, rfl, rfl, rfl, rfl, rfl, rfl, rfl, filter_dictSet _ _ _⟩
 
 /-- alignments of more than 60 000 read bases pass through unchanged -/
 theorem passthrough (al : List Char → List Char → List Op) (r : Rec) (ref q : List Char) (h : passThrough r = true) :
     realignOne al r ref q = printRealigned r := by
-  sorry
+  simp [realignOne, h]
 
 /-- what is assumed of the foreign aligner -/
 structure AlignerContract (al : List Char → List Char → List Op) : Prop where
@@ -60,7 +96,10 @@ theorem realign_record (al : List Char → List Char → List Op) (hA : AlignerC
     Aligns ref q (al ref q) ∧ parseCigar ro.cigar = some (al ref q) ∧ ro.nmatch = nMatch (al ref q) ∧
     ro.blen = blockLen (al ref q) ∧ (∀ io, Aligns ref q io → cost (al ref q) ≤ cost io) ∧
     ro.tags.filter (fun kv => kv.1 != cgKey) = r.tags.filter (fun kv => kv.1 != cgKey) := by
-  sorry
+  have hv := (cigarValid_iff ref q (al ref q)).1 (hA.valid ref q)
+  have ht := tally_agrees r (al ref q) (aligns_wfOps ref q _ hv)
+  exact ⟨hv, ht.1, ht.2.1, ht.2.2.1,
+    fun io hio => hA.optimal ref q io ((cigarValid_iff ref q io).2 hio), (untouched r (al ref q)).2.2.2.2.2.2.2.2.2.2⟩
 
 /-! non-vacuity -/
 example : cigarValid "ACGTT".toList "AGGTAT".toList [(1, '='), (1, 'X'), (2, '='), (1, 'I'), (1, '=')] = true := by decide
